@@ -117,4 +117,10 @@ macro "frame_leaf" : tactic => `(tactic|
 
 macro "wp_go" : tactic => `(tactic| repeat (any_goals wp_step))
 
+/-- step over a call whose result and effect are irrelevant to the postcondition -/
+macro "wp_skip_call" : tactic => `(tactic| (refine wp_forall ?_; intro _ _))
+
+/-- `wp_go` for arbitrary postconditions: calls that cannot be stepped over with a lemma are skipped -/
+macro "wp_go'" : tactic => `(tactic| repeat (any_goals (first | wp_step | wp_skip_call)))
+
 end Rimu
